@@ -92,6 +92,11 @@ func init() {
 		Stubs:  []string{"Go's randomised map iteration order (smap: seeded permutation / ascending / descending per run)"},
 		Rule:   "cases = (item list of <= 10 (thorough 12) items with many equal weights/values, limit 0..sum+2, tie-breaker none/fewer/new, overflow allowed or not) or (undirected graph on <= 9 vertices: random density, disjoint cliques, complete, edgeless, isolated vertices) drawn from the run seed, every map range ordered by the simulator; oracle = brute force over all subsets / vertex sets; non-trivial = at least one map range was ordered by the simulator with a drawn permutation or an extreme order; distinct = distinct hash of (params, operations, env seed) over such runs",
 		Assume: append([]string{"the weakest claim: apart from map order this is generated input against a brute-force oracle (DESIGN.md C18)"}, seqAssume...)}
+	props["C19"] = &propCfg{ID: "C19", Engine: "B", Pkgs: "goz", Yield: true, Level: "exploration", QuickS: 25, ThorS: 480,
+		Real:   []string{"goz/goz.go (every statement, with a scheduling point inserted before each)", "Go channels, sync.WaitGroup, go statements, defer/recover (real, inside a testing/synctest bubble)"},
+		Stubs:  []string{"which goroutine proceeds at each statement (seeded choice at every quiescent point)", "task bodies (harness: internal yields, gates that stall them, injected panics)", "clock (synctest fake clock)"},
+		Rule:   "cases = (limit in {-1,0,1,2,3,5}, handler set or nil, submitter script of Go/Wait over tasks that yield, block on a gate and/or panic with a string, error or struct, followed by limit+1 gate-blocked tasks) drawn from the run seed; a run is non-trivial when >=2 goroutines were parked at once and >=1 switch between goroutines happened; distinct = distinct hash of the sequence of quiescent states (parked goroutines and their statements) and choices",
+		Assume: []string{"testing/synctest (go1.26.8) reports quiescence correctly; between two decisions only the released goroutine and goroutines it unblocks run, each stopping at its next statement"}}
 	props["C09"] = &propCfg{ID: "C09", Engine: "C", Pkgs: "cryptz", Imports: "crypto/rand=scrand", Level: "fault_enumeration", QuickS: 20, ThorS: 480,
 		Real:   []string{"cryptz/crypt.go, cryptz/aes.go, strz/enc.go (every statement)", "Go standard crypto (aes, cipher, md5) inside golib"},
 		Stubs:  []string{"crypto/rand.Reader (seeded/extreme bytes, short reads, errors)", "io.Reader peer (7 chunking policies, error after k bytes, data together with EOF or error, zero-length reads)", "io.Writer peer (error after k bytes)", "storage/transport medium (bit flips per field, truncation, extension, text substitution, wrong secret/AAD)"},
@@ -100,6 +105,9 @@ func init() {
 }
 
 var scratch string
+
+// curEngine is the engine of the property being checked (worker invocation differs for B).
+var curEngine string
 
 // replayDir overrides where replay files go (sensitivity runs keep them out of /verif).
 var replayDir string
@@ -203,6 +211,7 @@ func workersEnv() int {
 // prepare makes the scratch copy, rewrites and builds the worker; returns the worker path.
 func prepare(p *propCfg, repo string) (string, error) {
 	var err error
+	curEngine = p.Engine
 	if scratch == "" {
 		scratch, err = os.MkdirTemp("", "verif-"+p.ID+"-")
 		if err != nil {
@@ -250,7 +259,13 @@ func prepare(p *propCfg, repo string) (string, error) {
 		bargs = append(bargs, "-race")
 	}
 	bargs = append(bargs, "-o", worker, "./cmd/"+strings.ToLower(p.ID))
-	out, err = run(har, goEnv(), "go", bargs...)
+	gobin := "go"
+	if p.Engine == "B" {
+		// testing/synctest needs the newer toolchain
+		gobin = "go1.26.8"
+		bargs = []string{"test", "-c", "-o", worker, "./wb"}
+	}
+	out, err = run(har, goEnv(), gobin, bargs...)
 	if err != nil {
 		return "", fmt.Errorf("build worker: %v\n%s", err, out)
 	}
@@ -322,6 +337,11 @@ func explore(p *propCfg, worker, dir string, seed uint64, nW int, budgetMs int, 
 			if maxRuns > 0 {
 				args = append(args, "-max-runs", strconv.Itoa(maxRuns))
 			}
+			crashFile := filepath.Join(dir, fmt.Sprintf("crash%d.json", w))
+			if p.Engine == "B" {
+				args = append([]string{"-test.timeout=0", "-test.run=^TestWorker$"}, args...)
+				args = append(args, "-crash-file", crashFile)
+			}
 			if dump {
 				args = append(args, "-dump-hashes")
 			}
@@ -340,6 +360,19 @@ func explore(p *propCfg, worker, dir string, seed uint64, nW int, budgetMs int, 
 			select {
 			case err := <-done:
 				if err != nil {
+					if p.Engine == "B" {
+						// a worker killed by an unrecovered panic of a task is a property
+						// violation candidate (C19: "does not terminate the process"); it is
+						// confirmed by replaying the case it was executing in a fresh process
+						if cb, e2 := os.ReadFile(crashFile); e2 == nil && strings.Contains(buf.String(), "panic:") {
+							var c caseDoc
+							if json.Unmarshal(cb, &c) == nil {
+								c["violation"] = map[string]any{"class": "process_killed", "site": "goz.(*Limiter).Go", "detail": "worker process terminated by a panic while executing this case: " + firstPanicLine(buf.String())}
+								outs[w] = &workerOut{Property: p.ID, Worker: w, Violations: []caseDoc{c}, ViolCount: map[string]int{"process_killed@goz.(*Limiter).Go": 1}, Faults: map[string]int{}, Probes: map[string]int{}, Ends: map[string]int{}}
+								return
+							}
+						}
+					}
 					errs[w] = fmt.Errorf("worker %d: %v\n%s", w, err, tail(buf.String(), 4000))
 					return
 				}
@@ -370,6 +403,15 @@ func explore(p *propCfg, worker, dir string, seed uint64, nW int, budgetMs int, 
 	return outs, nil
 }
 
+func firstPanicLine(s string) string {
+	for _, l := range strings.Split(s, "\n") {
+		if strings.HasPrefix(l, "panic:") {
+			return l
+		}
+	}
+	return "?"
+}
+
 func tail(s string, n int) string {
 	if len(s) > n {
 		return s[len(s)-n:]
@@ -390,6 +432,9 @@ func replayOnce(worker, dir string, c caseDoc, strict bool, tag string) (caseDoc
 	if strict {
 		args = append(args, "-strict")
 	}
+	if curEngine == "B" {
+		args = append([]string{"-test.timeout=0", "-test.run=^TestWorker$"}, args...)
+	}
 	cmd := exec.Command(worker, args...)
 	cmd.Env = workerEnv(dir, 900)
 	var buf bytes.Buffer
@@ -403,6 +448,13 @@ func replayOnce(worker, dir string, c caseDoc, strict bool, tag string) (caseDoc
 	select {
 	case err := <-done:
 		if err != nil {
+			if curEngine == "B" && strings.Contains(buf.String(), "panic:") {
+				d := clone(c)
+				v := &violation{Class: "process_killed", Site: "goz.(*Limiter).Go", Detail: "worker process terminated by a panic while executing this case: " + firstPanicLine(buf.String())}
+				d["violation"] = map[string]any{"class": v.Class, "site": v.Site, "detail": v.Detail}
+				d["log_hash"] = "process-killed"
+				return d, v, nil
+			}
 			return nil, nil, fmt.Errorf("replay worker: %v\n%s", err, tail(buf.String(), 3000))
 		}
 	case <-time.After(120 * time.Second):
